@@ -9,6 +9,20 @@ COMMON_NOTE = ("Trusted base: CPython 3.12, numpy/scipy, icontract (or vlib.atta
                "(independent of molgri, see DESIGN.md section 3.2/5). Decides only the executions produced; nothing is 'verified'.")
 
 CHECKS = {
+    "C17": dict(
+        technique="outcome monitor (results and exception classes) on GridNameParser.__init__ against a relational specification over the token language; exhaustive enumeration",
+        text="Every parse of the real GridNameParser (both roles) is judged - whether it returned or raised - by a relational specification "
+             "(allowed outcome set per name: ValueError or a role-valid (algorithm, N>=1) with N=1 <=> zero algorithm, number/algorithm kept, "
+             "two numbers or two algorithm tokens rejected, canonical names accepted); valid outcomes are re-parsed and built through the "
+             "real factories (exactly N points). Exhaustive over all names of <=3 (quick) / <=4 (thorough) tokens from a 22-token alphabet.",
+        design_ref="5/C17"),
+    "C20": dict(
+        technique="runtime monitors on GridWriter.save_* / GridReader.load_* (bitwise comparison per path) and EnergyReader loaders (generated-file ground truth)",
+        text="Outcome monitors on the real GridWriter.save_* remember per path what was handed to the writer; postconditions on GridReader.load_* "
+             "compare shape, dtype, sparse format, index arrays and data bit by bit, across histories that re-use file names. Postconditions on "
+             "EnergyReader.load_energy/load_single_energy_column compare against the table the generator wrote (hostile xvg headers, legends, "
+             "number formats) and the csv round trip of the loaded frame.",
+        design_ref="5/C20"),
     "C13": dict(
         technique="runtime monitors (postconditions with snapshots on merge_matrix_cells, delete_rate_cells, SQRA.cut_and_merge) against a partition/lumping model; exhaustive operation histories + random hostile join lists",
         text="Every call of the real merge/delete functions is checked against a one-step lumping model computed from the incoming matrix, "
